@@ -60,7 +60,7 @@ PROPS['C18'] = {'level': 'proof', 'theorems': [], 'campaigns': [camp('staking', 
 PROPS['C19'] = {'level': 'proof', 'theorems': [], 'campaigns': [camp('staking', 24, 200), camp('ledger', 8, 100)]}
 PROPS['C20'] = {'level': 'proof', 'theorems': [], 'campaigns': [camp('governance', 32, 300), camp('staking', 8, 100)]}
 
-for _p in ['C27']:   # C06, C15, C22: see the tx builder block below
+for _p in []:   # C06, C15, C22: tx builder block below; C27: rules builder block below
     PROPS[_p] = {'level': 'proof', 'theorems': [], 'campaigns': [camp('checktx', 12, 100), camp('orders', 12, 100), camp('ledger', 8, 100)]}
 
 PROPS['C08'] = {'level': 'proof', 'modules': ['MinterProofs.Props.C08'], 'theorems': ['Minter.C08_commit_perm_invariant', 'Minter.C08_accumulate_perm_invariant', 'Minter.C08_rank_perm_invariant', 'Minter.C08_range_sites_safe', 'Minter.C08_commit_call_order'], 'modes': [{'mode': 'determinism', 'args': ['-profile', 'mixed', '-seed', '{seed}', '-n', '4', '-tier', '{tier}', '-keep', '{keep}']}]}
@@ -261,6 +261,56 @@ PROPS['C26'] = {
     'mismatch_counts': True,
     'assumptions': [TX_MODEL_NOTE],
     'claim_draft': "Lean theorems about the transaction model, for all states, transactions and delivery histories (Reach: any further deliveries at any heights under any oracle answers): once a transaction was accepted, delivering the same transaction again in any later state is rejected by the prologue with no moves at all - no fee (C26_after_success_free, C26_accepted_at_most_once; nonces only grow); a delivery rejected in the prologue makes no move, so repeating it is free (C26_prologue_reject_free). The remaining clause of the property is FALSE in the code and proved false on a concrete witness (C26_failed_tx_charged_again, known finding F4): a transaction that fails inside its handler pays the failure fee and keeps its nonce, so the same bytes pass the prologue again and pay again. Tie: the malformed stream re-delivers earlier transaction bytes (any recent one, and specifically ones that failed inside Run); the driver remembers every delivered byte string with its code and whether it changed the ledger and reports VIOL C26 charged-after-success (must never fire) and VIOL C26 failed-tx-charged-again (the known finding) on the real node; per-transaction correspondence as for C03/C04; campaigns malformed, mixed.",
+}
+
+
+# ---------------------------------------------------------------------------------------------------------------
+# rules builder: rule kernels for C20 (governance threshold), C27 (fee formula), C28 (block reward rule); mode `rules`
+_rules = lambda p: {'mode': 'rules', 'args': ['-profile', p, '-seed', '{seed}', '-n', '0', '-tier', '{tier}', '-driver', '{driver}', '-keep', '{keep}']}
+PROPS['C20'].update({
+    'registered': False,
+    'modules': ['MinterProofs.Props.C20'],
+    'theorems': ['Minter.Rules.passesCode_iff', 'Minter.Rules.passesCode_eq_passes', 'Minter.Rules.calcPowers_spec',
+                 'Minter.Rules.tally_largest_wins', 'Minter.Rules.at_most_one_passes', 'Minter.Rules.effective_iff', 'Minter.Rules.effective_iff_commission',
+                 'Minter.Rules.halt_iff', 'Minter.Rules.tallyVersion_none_iff', 'Minter.Rules.vote_past_rejected', 'Minter.Rules.vote_duplicate_rejected',
+                 'Minter.Rules.vote_accepted_iff', 'Minter.Rules.vote_store_nodup'],
+    'modes': [_rules('c20')],
+    'assumptions': ['the big.Float comparisons of the tallies (maxVotingResult.Cmp) are modelled as comparisons of the integer powers (same denominator, precision >= bitlen(total)); differentially tested with neighbouring powers at 10^27 scale, not proved',
+                    'hooks VerifCalculatePowers / VerifTallies run the real methods on a throw-away Blockchain value'],
+    'claim_draft': "Lean theorems about the governance kernels (MinterModel/Rules.lean, mirrored from calculatePowers, isApplicationHalted, isUpdateNetworkBlockV2, isUpdateCommissionsBlockV2 and the vote transactions' basicCheck), for all power tables and vote stores: the code's comparison Mul(voted,3).Cmp(Mul(total,2)) == 1 holds iff 3*voted > 2*total - strictly more than two thirds (passesCode_iff, passesCode_eq_passes = the monitor's predicate); only present, not-dropped validators have power, powers are >= 0, their sum is <= the total and the total is > 0 (calcPowers_spec); the tally's winner bounds every proposal's power and is a stored proposal (tally_largest_wins); two different proposals with disjoint voters cannot both pass (at_most_one_passes); under VotesWF (distinct texts, duplicate-free disjoint voter lists - what the vote transactions guarantee: vote_store_nodup) the code's decision is 'some name' iff a stored proposal with that text holds 3*voted > 2*total, for version votes, commission votes and halts (effective_iff, effective_iff_commission, halt_iff, tallyVersion_none_iff); a vote for a past height is rejected (120), a duplicate vote is rejected (118/121), anything else passes that check (vote_past_rejected, vote_duplicate_rejected, vote_accepted_iff). Tie: mode rules -profile c20 runs the real isMoreThanTwoThirds, calculatePowers, the three tallies and the vote checks against the Lean definitions (Q two3code calcpowers tallyhalt tallycom tallyver votecheck) on generated tables incl. malformed ones; node level ('takes effect at the voted height', halt) by the governance/staking campaigns with the driver monitors VIOL C20. Partial: float tally comparison is modelled on integers (see assumptions); applying the winning proposal (SetNewCommissions / AddVersion / stop) is bound by the campaign monitors, not by a theorem.",
+})
+PROPS['C27'] = {
+    'level': 'proof', 'registered': False,
+    'modules': ['MinterProofs.Props.C27'],
+    'theorems': ['Minter.Rules.commission_formula', 'Minter.Rules.priceOfType_isSome_iff', 'Minter.Rules.multisend_price',
+                 'Minter.Rules.pool_route_price', 'Minter.Rules.create_price', 'Minter.Rules.txPrice_mono_payload', 'Minter.Rules.txPrice_gas_linear',
+                 'Minter.Rules.tickerPrice_agrees', 'Minter.Rules.typePrice_agrees', 'Minter.Rules.txPrice_agrees', 'Minter.Rules.commissionInBase_base', 'Minter.Rules.commissionInBase_custom',
+                 'Minter.Rules.tickerBurn_base', 'Minter.Rules.tickerBurn_zero_skips', 'Minter.Rules.tickerBurn_pos', 'Minter.Rules.route_reject_iff', 'Minter.Rules.cheaper_route_min',
+                 'Minter.Rules.route_tie_pool', 'Minter.Rules.calcCommissionQ_spec', 'Minter.Rules.moves_rewards', 'Minter.Rules.fee_to_pool',
+                 'Minter.Rules.ticker_fee_burned', 'Minter.Rules.fee_not_to_zero', 'Minter.Rules.payCommission_rewards', 'Minter.Rules.success_rewards',
+                 'Minter.Rules.tickerBurn_rewards', 'Minter.Rules.ticker_burn_amount'],
+    'campaigns': [camp('checktx', 12, 100), camp('orders', 12, 100), camp('ledger', 8, 100)],
+    'modes': [_rules('c27')],
+    'mismatch_counts': True,
+    'assumptions': [TX_MODEL_NOTE, 'the failed-tx fee has no Go function of its own (inline in RunTx): Lean definition only, covered by the tx.fail_fee tags in the campaigns',
+                    'commissionInBase / tickerBurnInBase with a custom-coin price table are tested at the quote level only (no node run with a custom-coin table)'],
+    'claim_draft': "Lean theorems about the fee kernels (MinterModel/Rules.lean) and their agreement with the transaction model, for all price tables and transactions: the commission is gasPrice * (typePrice + (payload+service bytes) * byte price) (commission_formula), defined exactly for the 37 decodable types (priceOfType_isSome_iff), with the Multisend, pool-route and coin-creation formulas (multisend_price, pool_route_price, create_price), monotone in the payload and linear in the gas price (txPrice_mono_payload, txPrice_gas_linear); the transaction model's tickerPrice / typePrice / txPrice / tickerBurn equal these definitions on the state's table for every type (tickerPrice_agrees, typePrice_agrees, txPrice_agrees, ticker_burn_amount); conversion to the base coin (commissionInBase_base, commissionInBase_custom); CalculateCommission rejects iff no route answers and otherwise charges the minimum of the available quotes, the pool winning ties (route_reject_iff, cheaper_route_min, route_tie_pool, calcCommissionQ_spec); every fee move credits the reward pool with exactly the base value it reports and never the zero address, the ticker fee leaves the pool and reaches the zero address, and the pool effect of a successful transaction is the handler's plus the burn's (moves_rewards, fee_to_pool, fee_not_to_zero, ticker_fee_burned, payCommission_rewards, success_rewards, tickerBurn_rewards); the ticker burn is a positive amount or is skipped - a zero ticker price or gas price skips it and no longer rejects an executed transaction (tickerBurn_base, tickerBurn_pos, tickerBurn_zero_skips; the old behaviour, code 119 after the state change, was finding R1 of this component, repaired in /repo f0b1597). Tie: mode rules -profile c27 runs the real CommissionData of all types, the price conversion, CalculateCommission on real pools/reserves and real CreateCoin/CreateToken deliveries against the Lean definitions (Q typeprice txprice failprice symprice tickerburn route commission tobase); node level: VIOL C27 commission-price / fee-pool-delta / ticker-fee-not-burned on every delivered transaction of campaigns checktx, orders, ledger. Partial: see assumptions (failed-tx fee, custom-coin table); route ties are proved but not hit by the real-state test.",
+}
+PROPS['C28'] = {
+    'level': 'proof', 'registered': False,
+    'modules': ['MinterProofs.Props.C28'],
+    'theorems': ['Minter.Rules.updatePrice_some', 'Minter.Rules.updatePrice_stamp', 'Minter.Rules.first_update', 'Minter.Rules.floorDiv_le_iff',
+                 'Minter.Rules.drop_threshold', 'Minter.Rules.pctChange_floor', 'Minter.Rules.drop_rule', 'Minter.Rules.recovery', 'Minter.Rules.full_reward',
+                 'Minter.Rules.reward_le_safeReward', 'Minter.Rules.reward_nonneg', 'Minter.Rules.off_means_below', 'Minter.Rules.inWindow_iff',
+                 'Minter.Rules.hourOf_spec', 'Minter.Rules.update_only_in_window', 'Minter.Rules.no_update_keeps_reward', 'Minter.Rules.window_sets_reward',
+                 'Minter.Rules.withheld_burned', 'Minter.Rules.emission_tracks_minted', 'Minter.Rules.cap_stops', 'Minter.Rules.cap_resets_reward',
+                 'Minter.Rules.emission_overshoot', 'Minter.Rules.priceCountCert_sound', 'Minter.Rules.priceCountCert_exact'],
+    'campaigns': [camp('rewardtime', 8, 100)],
+    'modes': [_rules('c28')],
+    'assumptions': ['priceCount (big.Float fourth root) is an oracle value; every evaluation is judged by the decidable certificate priceCountCert (tolerance v/2^50 + 2)',
+                    'the Go replication of the priceCount expression in mode_rules.go is trusted (the node\'s returned safeReward is compared with it)',
+                    'EndBlock\'s extra minting for locked stakes in payout blocks (C19) is outside blockEmission'],
+    'claim_draft': "Lean theorems about the reward kernels (MinterModel/Rules.lean: UpdatePriceFix branch by branch, the BeginBlock window test, App.SetReward, EndBlock's emission), with the price level pc = priceCount as a parameter, for all stored reward states, reserves and times: for a BeginBlock that does not panic the stored reward state changes iff emission < cap, the block is in the update window (h % period == 1, 12 <= hour <= 14, more than 3 h since the last update) and the pool exists (update_only_in_window, inWindow_iff, hourOf_spec, no_update_keeps_reward, window_sets_reward); a price change of -10% or worse after rounding down - i.e. any change below -9% (drop_threshold, pctChange_floor, floorDiv_le_iff) - sets the reward to 0 and marks it off (drop_rule); afterwards it recovers by 10 BIP per update, never above the level, 'off' cleared exactly when the level is reached (recovery, off_means_below); otherwise the full level is paid (full_reward, first_update); reward is between 0 and the safe reward (reward_nonneg, reward_le_safeReward) and every update stores time, reserves and the returned reward (updatePrice_some, updatePrice_stamp); emission: below the cap validators get the reward, the counter grows by the safe reward and the withheld difference goes to the zero address; at the cap nothing is minted and the reward is reset; the counter passes the cap by less than one safe reward (withheld_burned, emission_tracks_minted, cap_stops, cap_resets_reward, emission_overshoot); the certificate for priceCount is sound and accepts the exact root (priceCountCert_sound, priceCountCert_exact). Tie: mode rules -profile c28 runs the real UpdatePriceFix, the window test, SetReward and EndBlock emission on real nodes against the Lean definitions (Q updprice pricecert pct window hour beginreward emit emitcap) incl. the panic cases; campaign rewardtime (clock jumps that hit the 12-15 h window) with the accrual/emission monitors - the live projection now carries the block reward, which BeginBlock changes in memory. Partial: priceCount itself is an oracle judged by the certificate; locked-stake extra minting belongs to C19.",
 }
 
 
